@@ -656,30 +656,53 @@ Proof.
   apply Z.ltb_ge in H1. apply Z.ltb_ge in H2. lia.
 Qed.
 
-Lemma dec_pow_ok : forall fp x y, exponent_out_of_range (dexp x * dec_trunc y) = false -> ok false (dec_pow fp x y).
+(* the series part of a non-integral power: what is assumed of it where a statement needs it *)
+Definition frac_pow_well_behaved (fp : dec -> dec -> dec -> pclass + dec) : Prop :=
+  forall x y whole c, fp x y whole = inl c -> c = PExponent.
+
+(* [bb] = may the exponent class remain; [need_fp]: the statement about fp that the non-integral branch uses *)
+Lemma dec_pow_ok : forall bb fp x y,
+  (dec_is_integer y = false -> forall whole, match fp x y whole with inl c => ok bb (Panic c) | inr _ => True end) ->
+  exponent_out_of_range (dexp x * dec_trunc y) = false -> ok bb (dec_pow fp x y).
 Proof.
-  intros fp x y Hr. apply exponent_in_range in Hr. unfold dec_pow.
+  intros bb fp x y Hfp Hr. apply exponent_in_range in Hr. unfold dec_pow.
   destruct (mant x =? 0) eqn:Ex; [exact I|]. apply Z.eqb_neq in Ex.
-  destruct (mant y =? 0); [exact I|].
-  destruct (negb (dec_is_integer y)); [destruct (mant x <? 0); exact I|].
+  destruct (mant y =? 0); [exact I|]. cbv zeta.
+  destruct (negb (dec_is_integer y) && (mant x <? 0)); [exact I|].
   assert (Habs : - 100000 <= dexp x * Z.abs (dec_trunc y) <= 100000).
   { destruct (Z.abs_spec (dec_trunc y)) as [[_ ->]|[_ ->]]; lia. }
   unfold dec_pow_nat.
   replace (in_int32 (dexp x * Z.abs (dec_trunc y))) with true
     by (symmetry; unfold in_int32, int32_min, int32_max; apply andb_true_iff; split; apply Z.leb_le; lia).
-  destruct (0 <=? dec_trunc y); [exact I|].
+  assert (Hfin : forall whole, ok bb (if dec_is_integer y then Ret (VNum whole)
+                                     else match fp x y whole with inr r => Ret (VNum r) | inl c => Panic c end)).
+  { intros whole. destruct (dec_is_integer y) eqn:Ei; [exact I|]. specialize (Hfp eq_refl whole).
+    destruct (fp x y whole); [exact Hfp|exact I]. }
+  destruct (0 <=? dec_trunc y); [apply Hfin|].
   destruct (dec_div_round_some (Dec 1 0) (Dec (mant x ^ Z.abs (dec_trunc y)) (dexp x * Z.abs (dec_trunc y)))
-              pow_precision_negative_exponent) as [q ->]; [| |exact I].
+              pow_precision_negative_exponent) as [q ->]; [| |apply Hfin].
   - cbn [mant]. apply Z.pow_nonzero; [assumption|apply Z.abs_nonneg].
   - cbn [dexp]. unfold pow_precision_negative_exponent, in_int32, int32_min, int32_max.
     apply andb_true_iff; split; apply Z.leb_le; lia.
 Qed.
 
-Lemma pow_body_ok : forall fp x y, ok false (pow_body fp x y).
+(* a power that is a whole number: no panic of any class, for every base (the three guards keep PowBigInt's
+   multiplications and the DivRound of a negative power inside int32) *)
+Lemma pow_body_integral_ok : forall fp x y, dec_is_integer (dec_canonical y) = true -> ok false (pow_body fp x y).
 Proof.
-  intros fp x y. unfold pow_body. cbv zeta.
+  intros fp x y Hi. unfold pow_body. cbv zeta.
   destruct (exponent_out_of_range (dexp (dec_canonical x) * dec_trunc (dec_canonical y))) eqn:E; [exact I|].
-  destruct (_ && _); [exact I|]. destruct (_ && _); [exact I|]. apply dec_pow_ok. assumption.
+  destruct (_ && _); [exact I|]. destruct (_ && _); [exact I|]. apply dec_pow_ok; [|assumption].
+  intros Hn. congruence.
+Qed.
+
+(* any power: the whole-part computation adds no panic; what remains is what the series part may do *)
+Lemma pow_body_ok : forall fp x y, frac_pow_well_behaved fp -> ok true (pow_body fp x y).
+Proof.
+  intros fp x y Hfp. unfold pow_body. cbv zeta.
+  destruct (exponent_out_of_range (dexp (dec_canonical x) * dec_trunc (dec_canonical y))) eqn:E; [exact I|].
+  destruct (_ && _); [exact I|]. destruct (_ && _); [exact I|]. apply dec_pow_ok; [|assumption].
+  intros _ whole. destruct (fp _ _ whole) as [c|] eqn:Ef; [|exact I]. rewrite (Hfp _ _ _ _ Ef). reflexivity.
 Qed.
 
 Lemma mul_body_ok : forall x y, ok false (mul_body x y).
